@@ -53,10 +53,12 @@ MUTANTS = [
      '        mesh = self.options["mesh"]\n        symmetry = self.options["symmetry"]\n        taper_ratio = inputs["taper"][0]\n',
      '        mesh = self.options["mesh"]\n        symmetry = self.options["symmetry"]\n        taper_ratio = inputs["taper"][0]\n        if taper_ratio != 1.0 and not np.iscomplexobj(inputs["taper"]):\n            mesh[-1, :, 2] += 0.0 * taper_ratio + 1e-12\n',
      "in-place edit of the user's mesh array when taper != 1"),
-    ("m12_ground_effect_without_symmetry_accepted", "C20", "aerodynamics/vortex_mesh.py",
-     '                    raise ValueError("Ground effect is not supported without symmetry turned on")\n',
-     '                    pass\n',
-     "rejection removed"),
+    ("m12_unknown_wing_type_falls_back_to_rect", "C20", "geometry/utils.py",
+     '        raise NameError("wing_type option not understood. Must be either a type of " + \'"CRM" or "rect".\')\n',
+     '        mesh = gen_rect_mesh(num_x, num_y, surf_dict["span"], surf_dict["root_chord"], span_cos_spacing, chord_cos_spacing)\n',
+     "unknown wing_type silently treated as a rectangular wing. (The originally planned mutant - dropping the ground-effect "
+     "ValueError - turned out to be equivalent under the property as stated: without the raise OpenMDAO still rejects the model "
+     "at final_setup with a RuntimeError, which is loud.)"),
     ("m13_loads_use_undeformed_mesh", "C12", "integration/aerostruct_groups.py",
      '            coupled.connect(name + ".def_mesh", name + "_loads.def_mesh")\n',
      '            self.connect("coupled." + name + ".mesh", "coupled." + name + "_loads.def_mesh")\n',
